@@ -122,8 +122,10 @@ func replayTrCase(env *trEnv, c *trCase) (diff string) {
 		base := name
 		if strings.HasPrefix(name, "_") {
 			parts := strings.SplitN(name, ".", 3)
-			if len(parts) == 3 && strings.HasPrefix(parts[1], "_") {
+			if len(parts) == 3 && parts[1] == "_https" { // RFC 9460 2.3 / 9.5: the http scheme is looked up as https
 				base = parts[2]
+			} else if len(parts) == 3 && strings.HasPrefix(parts[1], "_") {
+				base = "no-such-name.invalid"
 			}
 		}
 		h := strings.TrimSuffix(base, ".example")
@@ -360,4 +362,102 @@ func TestTransportCases(t *testing.T) {
 	}
 	w.Write(Ev{"summary": true, "cases": len(cases), "bad": bad, "env": nenv})
 	_ = net.IP{}
+}
+
+// Origins given as IPv6 literals: two different literals on the same port are two origins - their requests never share a
+// pooled connection, and each connection is authenticated for its own literal.
+func TestTransportIPv6Origins(t *testing.T) {
+	out := os.Getenv("VH_OUT")
+	if out == "" {
+		t.Skip("VH_OUT not set")
+	}
+	w := newNDWriter(t, out)
+	defer w.Close()
+	p := newPKI()
+	certs := map[string]tls.Certificate{}
+	lits := []string{"2001:db8::", "2001:db8::443", "2001:db8::8443", "2001:db8::1:443"}
+	for _, l := range lits {
+		certs[l] = p.leaf(l, false, 0)
+	}
+	var mu sync.Mutex
+	type seenReq struct{ conn, host, lit string }
+	var seen []seenReq
+	dialed := map[string]string{} // local address of the client side of a connection -> literal it was dialled for
+	ln, err := net.Listen("tcp", "127.0.0.1:0")
+	if err != nil {
+		w.Write(Ev{"summary": true, "env": 1})
+		return
+	}
+	// every literal gets its own certificate: the server picks it by the connection's intended literal (IP literals carry
+	// no SNI, and crypto/tls only asks GetCertificate without SNI when Certificates is empty - hence no httptest server)
+	tcfg := &tls.Config{GetCertificate: func(chi *tls.ClientHelloInfo) (*tls.Certificate, error) {
+		mu.Lock()
+		l, ok := dialed[chi.Conn.RemoteAddr().String()]
+		mu.Unlock()
+		if !ok {
+			return nil, fmt.Errorf("unknown connection")
+		}
+		c := certs[l]
+		return &c, nil
+	}}
+	hs := &http.Server{Handler: http.HandlerFunc(func(rw http.ResponseWriter, r *http.Request) {
+		mu.Lock()
+		seen = append(seen, seenReq{conn: r.RemoteAddr, host: r.Host, lit: dialed[r.RemoteAddr]})
+		mu.Unlock()
+		rw.Write([]byte("ok"))
+	})}
+	go hs.Serve(tls.NewListener(resetListener{ln}, tcfg))
+	defer hs.Close()
+	tr := ech.NewTransport()
+	tr.Resolver = ech.InsecureGoResolver()
+	tr.TLSConfig = &tls.Config{RootCAs: p.pool}
+	tr.Dialer.MaxConcurrency = 1
+	tr.Dialer.DialFunc = func(ctx context.Context, network, addr string, tc *tls.Config) (*tls.Conn, error) {
+		host, _, _ := net.SplitHostPort(addr)
+		raw, err := (&net.Dialer{}).DialContext(ctx, "tcp", ln.Addr().String())
+		if err != nil {
+			return nil, err
+		}
+		mu.Lock()
+		dialed[raw.LocalAddr().String()] = host
+		mu.Unlock()
+		c := tls.Client(raw, tc)
+		if err := c.HandshakeContext(ctx); err != nil {
+			raw.Close()
+			return nil, err
+		}
+		return c, nil
+	}
+	defer tr.HTTPTransport.CloseIdleConnections()
+	bad := 0
+	report := func(d string) {
+		bad++
+		w.Write(Ev{"key": "ipv6", "diff": d})
+	}
+	for round := 0; round < 2; round++ {
+		for _, l := range lits {
+			req, _ := http.NewRequest("GET", "https://["+l+"]:8443/r", nil)
+			resp, err := tr.RoundTrip(req)
+			if err != nil {
+				if envError(err) {
+					w.Write(Ev{"summary": true, "env": 1})
+					return
+				}
+				report(fmt.Sprintf("request to https://[%s]:8443 failed: %v", l, err))
+				continue
+			}
+			io.ReadAll(resp.Body)
+			resp.Body.Close()
+			mu.Lock()
+			last := seen[len(seen)-1]
+			mu.Unlock()
+			if last.lit != l {
+				report(fmt.Sprintf("the request for origin [%s]:8443 travelled on a connection that was dialled (and authenticated) for [%s]", l, last.lit))
+			}
+			if last.host != "["+l+"]:8443" {
+				report(fmt.Sprintf("Host header %q for origin [%s]:8443", last.host, l))
+			}
+		}
+	}
+	w.Write(Ev{"summary": true, "cases": 2 * len(lits), "bad": bad})
 }
